@@ -187,6 +187,26 @@ def check_gather(repo, chk):
         (sp.Integer(1), [sp.Integer(1), sp.Integer(0), sp.Integer(-1)], spins(sp.Integer(1)), [sp.Integer(0)]),  # mother helicities in descending order
         (3 * half, [3 * half], spins(half), [sp.Integer(0)]),  # a single mother helicity
     ]
+    # no rotation (angle None): the matrix is delta(la[ia], lb[ib]) - by helicity VALUE, whatever the two lists hold
+    for ja, la, lb in ((sp.Integer(1), spins(sp.Integer(1)), spins(sp.Integer(1))), (sp.Integer(1), spins(sp.Integer(1)), [sp.Integer(-1), sp.Integer(1)]), (sp.Integer(1), [sp.Integer(1), sp.Integer(0), sp.Integer(-1)], spins(sp.Integer(1))), (half, spins(half), [half]), (sp.Integer(1), [sp.Integer(0)], spins(sp.Integer(1)))):
+        tr = Translator(repo, hooks=hooks, max_depth=8)
+        try:
+            out = tr.call_fn(fn, [None, ja, list(la), list(lb)])
+        except Unmodelled as e:
+            raise AnalysisError("get_D_matrix_lambda(None, ...) not translatable for la=%s, lb=%s: %s" % (la, lb, e))
+        shape = (1, len(la), len(lb))
+        bad = []
+        if getattr(out, "shape", None) != shape:
+            bad.append("shape %s, expected %s" % (getattr(out, "shape", None), shape))
+        else:
+            for ia, a in enumerate(la):
+                for ib, b in enumerate(lb):
+                    want = 1 if a == b else 0
+                    if sp.simplify(sp.sympify(out[0][ia][ib]) - want) != 0:
+                        bad.append("[%s][%s]: code %s, expected %s" % (a, b, out[0][ia][ib], want))
+        chk.oblige("E6-gather", "no rotation (angle None), la=%s, lb=%s: delta of the helicity values" % (la, lb), not bad)
+        if bad:
+            chk.violation("E6-gather", fn.key, "identity:la=%s:lb=%s" % (la, lb), "without a rotation the matrix must be delta(la, lb) by helicity value; %d entries deviate, first: %s - for a restricted or re-ordered helicity list (massless particle, descending order) helicities of different value are identified" % (len(bad), bad[0]), file="tf_pwa/dfun.py", line=fn.lineno)
     for ja, la, lb, lc in cases:
         tr = Translator(repo, hooks=hooks, max_depth=8)
         ang = {"alpha": AL, "beta": TH, "gamma": GA}
